@@ -665,6 +665,7 @@ def check_C13(rep):
 def check_C18(rep):
     common_stage(rep)
     FX.run_fixed(rep, "custom_lexer.cpp", "g++", "-O1", "custom-lexer-contract-violated")
+    rep.notes["buffer_views"] = contfam.run_buffers(rep)       # "passes that slice": get_view of every buffer kind at byte level
     FX.run_fixed(rep, "custom_lexer.cpp", "clang++", "-O1 -fsanitize=address,undefined -fno-sanitize-recover=all", "custom-lexer-contract-violated")
     run = h1_stage(rep)
     if run is None: return rep
@@ -1039,6 +1040,7 @@ def driver_reference_check(rep, run, select, nontrivial, rule, samples_of, what)
 def check_C02(rep):
     common_stage(rep)
     FX.run_fixed(rep, "values.cpp", "g++", "-O1", "value-not-the-bottom-up-evaluation-of-the-derivation", run_prefix="ulimit -s unlimited;")
+    rep.notes["buffer_views"] = contfam.run_buffers(rep)       # "a term's value being its functor applied to its lexeme": the lexeme is the slice, for every buffer kind
     FX.run_fixed(rep, "values.cpp", "clang++", "-O1 -fsanitize=address,undefined -fno-sanitize-recover=all", "value-not-the-bottom-up-evaluation-of-the-derivation", run_prefix="ulimit -s unlimited;")
     run3 = h3_stage(rep)
     if run3 is not None:
@@ -1143,6 +1145,7 @@ def check_C06(rep):
 
 def check_C07(rep):
     common_stage(rep)
+    rep.notes["buffer_views"] = contfam.run_buffers(rep)       # the three buffer kinds present the same text: every lexeme, every iterator
     ok1 = FX.run_fixed(rep, "constexpr_agree.cpp", "g++", "", "constant-evaluation-and-run-time-disagree")
     ok2 = FX.run_fixed(rep, "constexpr_agree.cpp", "clang++", "", "constant-evaluation-and-run-time-disagree")
     FX.run_fixed(rep, "overloads.cpp", "clang++", "", "outcome-depends-on-the-entry-point-overload")
